@@ -13,14 +13,12 @@ MUTS = {
  'M5_busy_store_relaxed': lambda: sub('coro_storage.h','me->_busy.store(false, std::memory_order_release);','me->_busy.store(false, std::memory_order_relaxed);'),
  'M6_unlock_cas_relaxed': lambda: sub('mutex.h','compare_exchange_strong(x, nullptr, std::memory_order_release)','compare_exchange_strong(x, nullptr, std::memory_order_relaxed)'),
  'M7_bq_xchg_relaxed': lambda: sub('mutex.h','_requests.exchange(doorman(), std::memory_order_acquire)','_requests.exchange(doorman(), std::memory_order_relaxed)'),
- 'M8_queue_push_outside_lock': lambda: sub('queue.h','''            lk.unlock();
-            return p(std::forward<Args>(args)...);
-        } else {
-            _queue.emplace(std::forward<Args>(args)...);''','''            lk.unlock();
-            return p(std::forward<Args>(args)...);
-        } else {
+ 'M8_queue_push_outside_lock': lambda: sub('queue.h',"""        } else {
+            _queue.emplace(std::forward<Args>(args)...);
+            return false;""","""        } else {
             lk.unlock();
-            _queue.emplace(std::forward<Args>(args)...);'''),
+            _queue.emplace(std::forward<Args>(args)...);
+            return false;"""),
  'M9_sched_access_outside_guard': lambda: sub('scheduler.h','''    promise remove(ident id) {
         std::lock_guard _(_mx);
         if (_scheduled.empty()) return {};''','''    promise remove(ident id) {
@@ -66,15 +64,18 @@ MUTS = {
                 _next = nullptr;'''),
  'S4_explicit_failure_order': lambda: sub('awaiter.h','while (!chain.compare_exchange_weak(_next, this, std::memory_order_release)) {','while (!chain.compare_exchange_weak(_next, this, std::memory_order_release, std::memory_order_relaxed)) {'),
  'S5_all_seq_cst_mutex': lambda: (sub('mutex.h','compare_exchange_strong(x, nullptr, std::memory_order_release)','compare_exchange_strong(x, nullptr)'), sub('mutex.h','_requests.exchange(doorman(), std::memory_order_acquire)','_requests.exchange(doorman())')),
- 'S6_queue_lock_guard_to_unique': lambda: sub('queue.h','''    bool empty() {
-        std::lock_guard _(_mx);''','''    bool empty() {
-        std::unique_lock guard(_mx);'''),
+ 'S6_queue_lock_guard_to_unique': lambda: sub('queue.h',"""        std::lock_guard _(_mx);
+        return _queue.empty();""","""        std::unique_lock guard(_mx);
+        return _queue.empty();"""),
  'S8_unlock_reads_queue_again_as_owner': lambda: sub('mutex.h','        awaiter *first = _queue;\n','        awaiter *first = _queue;\n        if (_queue == nullptr) return;\n'),
  'S7_cas_fail_acquire_no_fence': lambda: (sub('awaiter.h','while (!chain.compare_exchange_weak(_next, this, std::memory_order_release)) {','while (!chain.compare_exchange_weak(_next, this, std::memory_order_release, std::memory_order_acquire)) {'), sub('awaiter.h','                std::atomic_thread_fence(std::memory_order_acquire);\n','')),
 }
 def run(name):
     shutil.rmtree(MUT, ignore_errors=True); shutil.copytree(BASE, MUT)
-    MUTS[name]()
+    try:
+        MUTS[name]()
+    except AssertionError as e:
+        print('== %s PATTERN-NOT-FOUND %r' % (name, e)); return
     env=dict(os.environ, COCLS_REPO=MUT)
     p=subprocess.run(['./check','C03','--tier','quick'],cwd=V,env=env,stdout=subprocess.PIPE,stderr=subprocess.STDOUT)
     out=p.stdout.decode()
